@@ -514,6 +514,28 @@ def parse_terminator(text):
     # dest
     dest = None
     m = re.match(r"^(\(?[\(\*]*_\d+[^=]*?) = (.*)$", call, re.S)
+    if re.match(r"^\(*\**_\d+", call):
+        # the destination may be a projected place whose type ascription contains " = " (`dyn Future<Output = T>`):
+        # split at the first " = " that is outside every bracket
+        depth, k0, cut = 0, 0, None
+        while k0 < len(call):
+            ch = call[k0]
+            if ch in "([{<":
+                depth += 1
+            elif ch in ")]}" or (ch == ">" and not (k0 > 0 and call[k0 - 1] in "-=")):
+                depth -= 1
+            elif depth == 0 and call.startswith(" = ", k0):
+                cut = k0
+                break
+            k0 += 1
+        if cut is not None:
+            class _M:
+                def __init__(self, a, b):
+                    self.a, self.b = a, b
+
+                def group(self, i):
+                    return self.a if i == 1 else self.b
+            m = _M(call[:cut], call[cut + 3:])
     if m and "(" in m.group(2):
         # make sure '=' is top-level assignment (not inside generics like Output = X)
         lhs = m.group(1).strip()
